@@ -333,6 +333,18 @@ def link_document():
                     },
                 }
             },
+            # a second link source whose `default` stands for OTHER codes than the first one's (200 and 4XX are documented here)
+            "/orders": {
+                "post": {
+                    "operationId": "createOrder",
+                    "requestBody": {"required": True, "content": {"application/json": {"schema": item_schema}}},
+                    "responses": {
+                        "200": copy.deepcopy(ok_obj),
+                        "4XX": copy.deepcopy(ok_obj),
+                        "default": dict(ok_obj, links={"DelOrd": {"operationId": "deleteItem", "parameters": {"id": "$response.body#/error/ref"}}}),
+                    },
+                }
+            },
             "/items/{id}": {
                 "get": {
                     "operationId": "getItem",
@@ -372,6 +384,11 @@ def make_dynamic(seed):
                 body = {"id": ident, "name": rng.choice(["ann", "bob", "c d", "é", ""]), "tags": [rng.choice(["t1", "t2", ""])]}
             headers = {"X-Token": f"tok{rng.randint(10, 99)}", "Location": f"/items/{ident}"}
             return status, headers, json.dumps(body).encode(), "application/json"
+        if record["method"] == "POST" and record["path"] == "/orders":
+            n = zlib.crc32((record["raw_path"] + "|" + record["body"]).encode("utf-8", "replace"))
+            rng = random.Random(f"{seed}:o:{n}")
+            status = [200, 201, 404, 503, 201, 422, 500, 202][n % 8]
+            return status, {}, json.dumps({"error": {"ref": rng.choice([0, rng.randint(1000, 1999)])}}).encode(), "application/json"
         return None
 
     return dynamic
@@ -417,11 +434,12 @@ def judge_part2(doc, result):
         cid = header_of(r, "x-schemathesis-testcaseid")
         if cid:
             by_case[cid] = r
-    responses = doc["paths"]["/items"]["post"]["responses"]
+    sources = {"POST /items": doc["paths"]["/items"]["post"]["responses"], "POST /orders": doc["paths"]["/orders"]["post"]["responses"]}
     link_defs = {}
-    for key, resp in responses.items():
-        for name, link in resp.get("links", {}).items():
-            link_defs[(key, name)] = link
+    for source, source_responses in sources.items():
+        for key, resp in source_responses.items():
+            for name, link in resp.get("links", {}).items():
+                link_defs[(source, key, name)] = link
     target_templates = {"getItem": ("GET", "/items/{id}"), "putItem": ("PUT", "/items/{id}"), "deleteItem": ("DELETE", "/items/{id}")}
     checked = 0
     for e in result.events:
@@ -436,7 +454,8 @@ def judge_part2(doc, result):
             if not m:
                 continue
             source_label, key, name, target_label = m.groups()
-            link = link_defs.get((key, name))
+            link = link_defs.get((source_label, key, name))
+            responses = sources.get(source_label)
             parent, child = by_case.get(c["parent_id"]), by_case.get(cid)
             if link is None or parent is None or child is None:
                 continue
